@@ -18,6 +18,14 @@ Theorem C16_no_static : no_static_bounds = true.
 Proof. exact no_static_bounds_true. Qed.
 Print Assumptions C16_no_static.
 
+(* no public method declares its lookup-key parameter Q without ?Sized *)
+Theorem C16_lookup_keys_may_be_unsized : forall r, In r sigs -> g_q_sized r = false.
+Proof.
+  intros r Hr. pose proof lookup_keys_may_be_unsized_true as H. unfold lookup_keys_may_be_unsized in H.
+  rewrite forallb_forall in H. specialize (H r Hr). destruct (g_q_sized r); [discriminate H | reflexivity].
+Qed.
+Print Assumptions C16_lookup_keys_may_be_unsized.
+
 Theorem C16_table_not_trivial : 30 <= borrow_rows.
 Proof. exact borrow_rows_many. Qed.
 Print Assumptions C16_table_not_trivial.
@@ -27,10 +35,10 @@ Print Assumptions C16_table_not_trivial.
    would be accepted *)
 Theorem C16_split_pair_rejected :
   row_tied {| g_file := ""; g_ty := "HashMap"; g_trait := ""; g_name := "get_key_value"; g_line := 0%N;
-              g_self := "m"; g_guards := ["g"]; g_ret_lts := ["m"; "g"]; g_outlives := [("g", "m")];
+              g_self := "m"; g_guards := ["g"]; g_ret_lts := ["m"; "g"]; g_outlives := [("g", "m")]; g_q_sized := false;
               g_ret := ""; g_borrow := true; g_static := false |} = false /\
   row_tied {| g_file := ""; g_ty := "HashMap"; g_trait := ""; g_name := "get_key"; g_line := 0%N;
-              g_self := "m"; g_guards := ["g"]; g_ret_lts := ["m"]; g_outlives := [("g", "m")];
+              g_self := "m"; g_guards := ["g"]; g_ret_lts := ["m"]; g_outlives := [("g", "m")]; g_q_sized := false;
               g_ret := ""; g_borrow := true; g_static := false |} = true.
 Proof. exact split_pair_rejected. Qed.
 Print Assumptions C16_split_pair_rejected.
